@@ -98,3 +98,20 @@ Definition ids_positive (c : tcfg) (s : tstate) : bool :=
 Definition is_ctimeout (it : titem) : bool := match it with CTimeout _ _ _ _ => true | _ => false end.
 Definition is_user_onexc (it : titem) : bool :=
   match it with COnExc _ _ err _ => negb (Nat.eqb err 0) | _ => false end.
+
+(* ----------------------------------------------------------------- the envelope of C17_once_on_time
+   A trigger issued by an on_exit callback of an UNQUEUED machine runs inside the exit of the running
+   transition, while the model's state is still the source: if it changes the state, the source's exit —
+   and with it the same callback — runs again, for ever (Python: RecursionError).  The terminating uses
+   are the inert ones: unknown / invalid events, failing conditions, internal transitions.  Queued
+   machines defer the trigger, any event is fine. *)
+Definition inert (c : tcfg) (s : tstate) (e : tevent) : bool :=
+  negb (event_known c e) ||
+  match first_ok (cands c e s) with
+  | Some t => match tt_dst t with None => true | Some _ => false end
+  | None => true
+  end.
+Definition exit_acts_inert (c : tcfg) (s : tstate) (d : tsdef) : bool :=
+  forallb (fun cb => match ec_act cb with None => true | Some e => inert c s e end) (ts_exit d).
+Definition guard_C17 (c : tcfg) : bool :=
+  tc_queued c || forallb (fun p => exit_acts_inert c (fst p) (snd p)) (tc_states c).
